@@ -76,6 +76,10 @@ class Undecided(Exception):
     pass
 
 
+class Infeasible(Exception):
+    """the path condition of this world has no satisfying assignment"""
+
+
 class Halt(Exception):
     """raised by a model of an external function to end the execution normally (e.g. after the first send of an
     endless loop)"""
@@ -141,6 +145,7 @@ class Machine(object):
         self.cur = None
         self.externals = {}       # name -> callable(machine, args, ins) modelling an external function
         self.overrides = {}       # same, but also replaces functions *defined* in the module (I/O helpers)
+        self.ptrints = {}         # address vectors produced by ptrtoint -> the pointer they came from
 
     # ---- helpers ----------------------------------------------------------
     def loc(self):
@@ -537,7 +542,35 @@ class Machine(object):
             d = True
             self.prefix.append(True)
         self.w.decisions.append((term, d))
+        if len(self.w.decisions) >= 2 and not self.small_feasible():
+            raise Infeasible()
         return d
+
+    def small_feasible(self):
+        """exact satisfiability of the path condition when it mentions at most 10 variables (typically the low bits
+        of a base address or a handful of flags); otherwise assumed feasible"""
+        vs = set()
+        for t, d in self.w.decisions:
+            B.term_vars(t, vs)
+            if len(vs) > 24:
+                return True
+        base = [v for v in vs if v[0] != 'C']
+        if len(base) > 10:
+            return True
+        n = len(base)
+        for k in range(1 << n):
+            env = {base[i]: (k >> i) & 1 for i in range(n)}
+            ok = True
+            for t, d in self.w.decisions:
+                try:
+                    if bool(B.eval_term(t, env)) != d:
+                        ok = False
+                        break
+                except ValueError:
+                    return True
+            if ok:
+                return True
+        return False
 
     # ---- execution --------------------------------------------------------
     def call(self, fname, args):
@@ -713,18 +746,28 @@ class Machine(object):
                 continue
             if op == 'ptrtoint':
                 a = self.operand(ins.args[0])
+                wt = type_bits(mod, ins.ty)
                 if isinstance(a, Ptr):
                     if a.is_null and a.off == 0:
                         fr.regs[ins.dest] = 0
+                    elif isinstance(a.region, str) and a.off is not None and a.region[:1] not in '?':
+                        # the address is an unknown number: base address of the region (symbolic, any alignment)
+                        # plus the known offset.  Tests such as (uintptr_t)p % 4 then fork on the placement.
+                        base = sym_arg('&' + a.region, wt)
+                        v = B.v_add(base, a.off & B.mask(wt), wt)
+                        self.ptrints[B.to_bits(v, wt)] = a
+                        fr.regs[ins.dest] = v
                     else:
                         fr.regs[ins.dest] = PtrInt(a)
                 else:
-                    fr.regs[ins.dest] = B.v_top(type_bits(mod, ins.ty))
+                    fr.regs[ins.dest] = B.v_top(wt)
                 continue
             if op == 'inttoptr':
                 a = self.operand(ins.args[0])
                 if isinstance(a, PtrInt):
                     fr.regs[ins.dest] = a.ptr
+                elif isinstance(a, tuple) and a in self.ptrints:
+                    fr.regs[ins.dest] = self.ptrints[a]
                 elif a == 0:
                     fr.regs[ins.dest] = NULL
                 else:
@@ -954,7 +997,7 @@ def sym_arg(name, w):
     return tuple(('A', name, i) for i in range(w))
 
 
-def analyse(mod, fname, make_args, max_worlds=64, max_steps=2000000, gcache=None, externals=None, overrides=None):
+def analyse(mod, fname, make_args, max_worlds=64, max_steps=600000, gcache=None, externals=None, overrides=None):
     """Run `fname` in every world.  make_args() -> (args, regions) must build
     fresh argument values and regions for each execution.  Returns the list of
     World objects (status 'ok' or 'undecided')."""
@@ -986,6 +1029,8 @@ def analyse(mod, fname, make_args, max_worlds=64, max_steps=2000000, gcache=None
                 m.w.ret = m.call(fname, args)
         except Halt:
             m.w.ret = None
+        except Infeasible:
+            m.w.status = 'infeasible'
         except Undecided as e:
             m.w.status = 'undecided'
             m.w.reason = str(e)
